@@ -117,7 +117,7 @@ def resumed_limit_cases(ctx):
                     open(pth, 'wb').write(keep[ext])
                 elif os.path.exists(pth):
                     os.remove(pth)
-        big = 'm' * (sum(len(u[2]) + 1 for u in units) + 10)
+        big = 'm' * (sum(len(u[2]) + 2 for u in units) + 10)
         restore_files()
         ref = ss.run_session(pcfg, sf, C15.load_cfg(sf), True, big, [])['out']
         runs += 1
@@ -179,7 +179,7 @@ def replay(ctx, payload):
                 os.remove(sf[:-4] + ext)
         ss.run_session(pcfg, sf, C12.new_cfg(), False, C15.quit_schedule(units, w['unit'], w['guess']), [('line', 'q', False)])
         keep = {ext: open(sf[:-4] + ext, 'rb').read() for ext in ('.sav', '.omn') if os.path.exists(sf[:-4] + ext)}
-        big = 'm' * (sum(len(u[2]) + 1 for u in units) + 10)
+        big = 'm' * (sum(len(u[2]) + 2 for u in units) + 10)
         outs = []
         for lim in (None, w['limit']):
             for ext, data in keep.items():
